@@ -384,6 +384,25 @@ func appendSlice(expr ast.Expr, lhsV reflect.Value, rhsV reflect.Value) (reflect
 		return reflect.AppendSlice(lhsV, rhsV), nil
 	}
 
+	// the elements are converted into a new slice first and appended in one
+	// go, like append(lhs, values...): a failing conversion leaves lhs and
+	// the storage it shares untouched
+	converted, err := convertSliceElements(expr, lhsV.Type(), rhsV)
+	if err != nil {
+		return nilValue, err
+	}
+	return reflect.AppendSlice(lhsV, converted), nil
+}
+
+// convertSliceElements converts the elements of rhsV into a new slice of type lhsSliceT
+func convertSliceElements(expr ast.Expr, lhsSliceT reflect.Type, rhsV reflect.Value) (reflect.Value, error) {
+	if lhsSliceT.Kind() == reflect.Array {
+		lhsSliceT = reflect.SliceOf(lhsSliceT.Elem())
+	}
+	lhsT := lhsSliceT.Elem()
+	rhsT := rhsV.Type().Elem()
+	lhsV := reflect.MakeSlice(lhsSliceT, 0, rhsV.Len())
+
 	if rhsT.ConvertibleTo(lhsT) {
 		for i := 0; i < rhsV.Len(); i++ {
 			lhsV = reflect.Append(lhsV, rhsV.Index(i).Convert(lhsT))
